@@ -128,6 +128,10 @@ def layouts(t):
                 pass
             elif k == 'hl':
                 emit('\n' + ' ' * max(indent, 0))
+                if mode == 'flat':
+                    # a hard line break inside a group laid out flat (finding C04.h): the engine's look-ahead stopped here, the groups
+                    # that follow inside the same flat group are measured on their own
+                    state['hl_in_flat'] = True
             elif k == 'line':
                 m_ = mode if mode == 'flat' else assign.get(id(t), mode)
                 emit(' ') if m_ == 'flat' else emit('\n' + ' ' * max(indent, 0))
@@ -154,17 +158,25 @@ def layouts(t):
             elif k == 'grp':
                 if mode == 'flat':
                     start_line, start_len = state['line'], len(buf)
-                    go(t[1], 'flat', indent)
+                    m_ = assign.get(id(t), 'flat') if state.get('hl_in_flat') and not _flat_forced(t[1]) else 'flat'
+                    if _flat_forced(t[1]) and state.get('hl_in_flat'):
+                        m_ = 'break'
+                    go(t[1], m_, indent)
+                    if m_ != 'flat':
+                        return
                     if ''.join(buf[start_len:]).strip('\x01\x02 \n'):
-                        flats.append((indent, _text_line(buf, start_len, start_line)))
+                        flats.append((indent, _text_line(buf, start_len, start_line), state['line'], '\n' in ''.join(buf[start_len:])))
                 elif _flat_forced(t[1]):
                     go(t[1], 'break', indent)
                 else:
                     m = assign.get(id(t), 'break')
                     start_line, start_len = state['line'], len(buf)
+                    saved_ = state.get('hl_in_flat', False)
+                    state['hl_in_flat'] = False
                     go(t[1], m, indent)
+                    state['hl_in_flat'] = saved_
                     if m == 'flat' and ''.join(buf[start_len:]).strip('\x01\x02 \n'):
-                        flats.append((indent, _text_line(buf, start_len, start_line)))
+                        flats.append((indent, _text_line(buf, start_len, start_line), state['line'], '\n' in ''.join(buf[start_len:])))
             else:
                 raise ValueError(k)
         go(t, 'break', 0)
@@ -190,6 +202,7 @@ def documents(tier, seed):
         g(cat(('fc', cat(a, H), a), b)), g(cat(a, ('fc', cat(H, ('t', '# ')), ('t', ' ')), b)), ('fill', [b, L, c, L, a, L, b]), g(('fill', [b, L, c, L, a])),
         cat(('fill', [('t', 'lorem'), L, ('t', 'ipsum'), L]), ('t', '.')), g(cat(('fill', [b, L, c, L]), a)), ('fill', [b, L]), ('nest', 2, ('fill', [a, L, b, L, c, L, a, L, b])),
         cat(('t', '0123456789'), g(cat(a, L, a)), ('nest', 2, cat(H, ('t', 'x' * 14)))), g(cat(('t', 'x' * 9), L, a)),
+        g(cat(a, L, a, H, a, L, ('t', 'dddddd'))),
         cat(), ('t', ''), N, g(N), b, cat(b, c), g(cat(g(cat(g(cat(a, L, a)), L, a)), L, a)), cat(g(cat(b, L, c)), ('t', 'dddddd')),
         g(cat(b, L, c, ('nest', 8, cat(L, a)))), cat(g(cat(a, L, b)), ('nest', 3, cat(H, g(cat(c, L, c, L, c))))),
     ]
@@ -263,7 +276,7 @@ class World(DM.World):
 def _job(args):
     repo, docs, tier = args
     w = World(repo)
-    res = {'C04': [0, []], 'C05': [0, []], 'C06': [0, []], 'ann': [0, []], 'und': []}
+    res = {'C04': [0, []], 'C05': [0, []], 'C05hl': [0, []], 'C06': [0, []], 'ann': [0, []], 'und': []}
     for t in docs:
         try:
             doc = w.build(t)
@@ -309,15 +322,29 @@ def _job(args):
                         lines = got.replace('\x01', '').replace('\x02', '').split('\n')
                         best = None
                         for flats in texts[got]:
-                            bad = [(ind, ln) for ind, ln in flats if len(lines[ln]) > width or len(lines[ln]) - max(ind, 0) > ribbon]
-                            if best is None or len(bad) < len(best):
-                                best = bad
-                        if not best:
+                            bad = []
+                            for ind, first, last, has_hl in flats:
+                                for ln in range(first, last + 1):
+                                    if len(lines[ln]) > width or len(lines[ln]) - max(ind, 0) > ribbon:
+                                        bad.append((ind, ln, has_hl))
+                                        break
+                            # prefer an explanation without violations, then one whose violations all involve a hard break (finding C04.h)
+                            score = (len([b_ for b_ in bad if not b_[2]]), len(bad))
+                            if best is None or score < best[0]:
+                                best = (score, bad)
+                        bad = best[1] if best else []
+                        plain = [b_ for b_ in bad if not b_[2]]
+                        if not bad:
                             res['C05'][0] += 1
-                        else:
-                            ind, ln = best[0]
+                        elif plain:
+                            ind, ln, _ = plain[0]
                             res['C05'][1].append('%s emits %r: the group starting on line %d (indentation %d) is laid out flat but that line is %d columns '
-                                                 'wide (page %d, ribbon %d from the group\'s indentation)' % (desc, got, ln + 1, ind, len(lines[ln]), width, ribbon))
+                                                 'wide (page %d, ribbon %d from the group\'s indentation)' % (desc, got.replace('\x01', '').replace('\x02', ''), ln + 1, ind,
+                                                                                                              len(lines[ln]), width, ribbon))
+                        else:
+                            ind, ln, _ = bad[0]
+                            res['C05hl'][1].append('%s emits %r: a group that contains a hard line break is laid out flat (finding C04.h) and its line %d is %d '
+                                                   'columns wide (page %d, ribbon %d)' % (desc, got.replace('\x01', '').replace('\x02', ''), ln + 1, len(lines[ln]), width, ribbon))
                         if flat_text is not None and '\n' not in flat_text:
                             L_ = len(flat_text.replace('\x01', '').replace('\x02', ''))
                             if width >= L_ and ribbon >= L_:
@@ -355,9 +382,9 @@ def run(repo, rep, rules):
             _ARGS = None
     if results is None:
         results = [_job((repo, docs, rep.tier))]
-    tot = {'C04': [0, []], 'C05': [0, []], 'C06': [0, []], 'ann': [0, []], 'und': []}
+    tot = {'C04': [0, []], 'C05': [0, []], 'C05hl': [0, []], 'C06': [0, []], 'ann': [0, []], 'und': []}
     for r in results:
-        for k in ('C04', 'C05', 'C06', 'ann'):
+        for k in ('C04', 'C05', 'C05hl', 'C06', 'ann'):
             tot[k][0] += r[k][0]
             tot[k][1] += r[k][1]
         tot['und'] += r['und']
@@ -373,6 +400,9 @@ def run(repo, rep, rules):
                 rep.fail(rule, names[k] if i == 0 else '%s#%d' % (names[k], i + 1), where, d)
         else:
             rep.check(okc >= floors[k] or bool(tot['und']), rule, names[k], where, 'held on %d interpreted layouts' % okc, 'only %d layouts could be compared' % okc, nontrivial=True)
+    if 'C05' in rules and tot['C05hl'][1]:
+        n += 1
+        rep.fail(rules['C05'], 'flat-group-line-fits:hard-line-break-inside-flat-group', where, sorted(tot['C05hl'][1], key=len)[0])
     for u in tot['und'][:4]:
         n += 1
         rep.undecided(list(rules.values())[0], 'layout-model-interpretable', where, u)
